@@ -255,7 +255,8 @@ Print Assumptions C17_sys_frame_only_by_call.
 (** ** monitor soundness: the executable monitors the check evaluates on the implementation's traces
     (Model/AdapterCheck.v) accept the model's own behaviour — for EVERY hook selection, receipt and injected
     router failure the pure-hook monitor (11 message without matching log, 12 not one message per matching
-    log, 13 signer is not the event's first field) and the comparison report nothing on the model's output *)
+    log, 13 signer is not the event's first field, 14 a field of a message is not verbatim the field of its
+    decoded event) and the comparison report nothing on the model's output *)
 Theorem C17_hook_monitor_sound : forall w logs f,
   mon_hcase (model_hcase w logs f) = [] /\ cmp_hcase (model_hcase w logs f) = [].
 Proof. exact hook_monitor_sound. Qed.
